@@ -426,6 +426,61 @@ design(
 """,
 )
 
+# helper functions that live only while architecture() runs: compile-time helpers (cohdl.pyeval) that nothing captures, and
+# plain local functions called from synthesizable code (whether a function is evaluated by Python or compiled is a property of
+# the function object, not of its address)
+design(
+    "pyeval_local",
+    """
+    def architecture(self):
+        widths = []
+        for k in range(10):
+            @cohdl.pyeval
+            def pick_width(n=k):
+                return 1 + n % 3
+            widths.append(pick_width())
+
+        @std.sequential(std.Clock(self.clk))
+        def proc():
+            #@CTX
+            self.w <<= self.v + widths[3]
+            self.o <<= self.a
+""",
+)
+
+design(
+    "local_plain_helpers",
+    """
+    def architecture(self):
+        def inc(x):
+            return x + 1
+
+        def dec(x):
+            return x - 1
+
+        def sel(c, x, y):
+            return x if c else y
+
+        def twice(x):
+            return inc(inc(x))
+
+        def both(x):
+            return dec(twice(x))
+
+        def keep(x):
+            return x
+
+        @std.sequential(std.Clock(self.clk))
+        def proc():
+            self.w <<= sel(self.a, both(self.v), keep(dec(self.v)))
+            self.o <<= self.b
+
+        @std.concurrent
+        def logic():
+            pass
+""",
+)
+
 # ascending ranges next to descending ones of the same width (the other designs use descending vectors of width 4)
 design(
     "vec_ascending",
